@@ -2,7 +2,7 @@
    history of the operation alphabet `op` from the empty world whose moves / copies satisfy op_ok, the compatibility check is exact —
    no hypothesis about the world is left. *)
 From AV Require Import Base.Bytes Base.Outcome Hash.HashModel Spec.SpecOps Spec.SpecProofs Spec.SpecReal Tree.Heap Tree.Ops Tree.Script Tree.Inv
-  Tree.Compat Tree.CompatSpec Tree.CompatTyped Tree.CompatProofs5 Tree.CompatReal Tree.SpecWFReal Tree.CompatHist1 Tree.CompatHist4 Tree.CompatHist5.
+  Tree.Compat Tree.CompatSpec Tree.CompatTyped Tree.CompatProofs5 Tree.CompatReal Tree.SpecWFReal Tree.CompatHist1 Tree.CompatHist4 Tree.CompatHist5 Tree.CompatHist6 Tree.Script2.
 From AV.Gen Require Import SpecTables.
 Open Scope list_scope.
 Open Scope N_scope.
@@ -45,6 +45,27 @@ Proof.
 Qed.
 
 End Real.
+
+(* the extended alphabet (sort, sort of a model, set_version, check_version_compatibility, serialize; load and duplicate pending) *)
+Section Real2.
+Variable tab_el tab_at tab_en : nametab.
+Variable check_fn : N -> list N -> res bool.
+Variable float_parse : list N -> option N.
+Variable float_fmt : N -> list N.
+Variable LATEST name_index name_definition_ref attr_schema_location : N.
+Variable root_attrs : list (N * cdata).
+
+Theorem exact_histories2_real (l : list op2) (w : world) :
+  run_ops2 RT tab_el tab_at tab_en check_fn float_parse float_fmt LATEST name_index name_definition_ref attr_schema_location root_attrs l empty_world = Val w ->
+  ok_ops2 RT tab_el tab_at tab_en check_fn float_parse float_fmt LATEST name_index name_definition_ref attr_schema_location root_attrs l empty_world ->
+  forall f v r, f_check RT w f v = Val r -> (fst r = [] <-> ValidIn RT w f v).
+Proof.
+  intros H Hok f v r Hc.
+  destruct (typed_histories2 RT tab_el tab_at tab_en check_fn float_parse float_fmt LATEST name_index name_definition_ref
+              attr_schema_location root_attrs l empty_world w InvProofs.empty_core (empty_typed RT) Hok H) as (C & HT).
+  exact (f_check_exact_u RT w f v PairOK_real MaskOK_real C HT r Hc).
+Qed.
+End Real2.
 
 (* ---- non-vacuity: a history on the real tables with a move whose side condition holds ---- *)
 From AV Require Import Hash.HashRealElement Hash.HashRealEnum.
